@@ -158,7 +158,11 @@ func Verify(root *etree.Element, sigpath string, extraCerts []*x509.Certificate)
 			(sig.Reference.Transforms[1].Algorithm != AlgXMLExcC14n && sig.Reference.Transforms[1].Algorithm != AlgXMLExcC14nRec) {
 			return nil, errors.New("xmldsig: unsupported reference transform")
 		}
-		sigEl.Parent().RemoveChild(sigEl)
+		parent := sigEl.Parent()
+		if parent == nil {
+			return nil, errors.New("xmldsig: enveloped signature is not inside the signed document")
+		}
+		parent.RemoveChild(sigEl)
 		reference = root
 	} else {
 		// enveloping signature
